@@ -458,10 +458,31 @@ func HarnessC07a() {
 	}
 	verifClass("C15.common-spine-nodes-are-read", withinSpines(diffiterLoads))
 	verifAssert("C15.diffiter-reads", distinct(diffiterLoads) <= 2*D+2)
+	// the cursor form (StartDiff + NextEntry until ErrNoMoreDiffs), reads counted from before StartDiff
+	l0, l0n = len(st.loadLog), len(stNew.loadLog)
+	cursorOK := true
+	if dc, derr := nw.StartDiff(vctx, old); derr != nil {
+		cursorOK = false
+	} else {
+		for steps := 0; ; steps++ {
+			verifAssume(steps <= 4*(len(reachOld)+len(reachNew))+8)
+			if _, nerr := dc.NextEntry(vctx); nerr != nil {
+				cursorOK = nerr == ErrNoMoreDiffs
+				break
+			}
+		}
+	}
+	verifAssert("C06.cursor.err", cursorOK)
+	cursorLoads := append([]string{}, st.loadLog[l0:]...)
+	if stNew != st {
+		cursorLoads = append(cursorLoads, stNew.loadLog[l0n:]...)
+	}
+	verifClass("C15.common-spine-nodes-are-read", withinSpines(cursorLoads))
+	verifAssert("C15.cursor-reads", distinct(cursorLoads) <= 2*D+2)
 	sameVersion := false
 	if rOld.Link != nil && rNew.Link != nil {
 		sameVersion = verifStrEq(*rOld.Link, *rNew.Link)
 	}
 	// same version: no node is read at all
-	verifAssert("C15.same-version-no-reads", verifOr(!sameVersion, len(difflinksLoads)+len(diffiterLoads) == 0))
+	verifAssert("C15.same-version-no-reads", verifOr(!sameVersion, len(difflinksLoads)+len(diffiterLoads)+len(cursorLoads) == 0))
 }
